@@ -8,7 +8,7 @@ TRACE = {
     "C04": (["P_C04"], []),
     "C05": (["P_C05"], []),
     "C07": (["P_C07"], []),
-    "C08": (["P_C08"], []),
+    "C08": (["P_C08", "P_C05"], []),  # "while a canary is paused ... elapsed time does not promote it" is the promotion rule
     "C09": (["P_C09", "P_C09s"], []),
     "C10": (["P_C10"], []),
     "C12": (["P_C12"], []),
